@@ -66,7 +66,7 @@ def I(n=1):
     return ("int", n)
 
 
-def St(n=1, quote='"'):
+def St(n=1, quote=None):
     return ("str", quote, n)
 
 
@@ -101,7 +101,10 @@ def instantiate(node, lf):
     if k == "int":
         return ("int", [lf.digit() for _ in range(node[1])])
     if k == "str":
-        return ("str", node[1], [lf.strchar(node[1]) for _ in range(node[2])])
+        quote = node[1]
+        if quote is None:
+            quote = ['"', "'"][lf.x.choice(lf.name("qt"), 2)]
+        return ("str", quote, [lf.strchar(quote) for _ in range(node[2])])
     if k == "list":
         return ("list", [instantiate(n, lf) for n in node[1]])
     if k == "dict":
@@ -441,6 +444,10 @@ VARIABLES = [
     [("_a1", St(1)), ("b_2", L(V("_a1"), I(1))), (R, D(("k", V("b_2")), ("j", V("_a1"))))],
     [("x", I(1)), ("y", V("x")), ("x", I(2)), (R, L(V("x"), V("y")))],
     [(R, I(1)), ("x", V("RETURN")), (R, L(V("x"), I(1)))],
+    # the same statement text again after a rebinding
+    [("a", I(1)), ("b", L(V("a"), K("x"))), ("a", I(1)), ("b", L(V("a"), K("x"))), (R, V("b"))],
+    [("a", I(1)), (R, V("a")), ("a", St(1)), (R, V("a"))],
+    [("a", L(I(1))), ("b", F("concat", V("a"), V("a"))), ("a", L(St(1))), ("b", F("concat", V("a"), V("a"))), (R, L(V("a"), V("b")))],
 ]
 CALLS = [
     [(R, F("nop"))],
@@ -450,6 +457,9 @@ CALLS = [
     [(R, F("concat", L(I(1)), L(I(1), I(1))))],
     [(R, F("concat", L(I(1), I(1)), L(St(1))))],
     [(R, F("concat", L(), L(I(1))))],
+    [(R, F("concat", L(St(2)), L(I(1))))],
+    [(R, F("concat", L(St(1)), F("concat", L(St(1)), L())))],
+    [(R, F("filter_keyvals", L(), St(2), L(D(("k", St(1))))))],
     [(R, F("concat", L(I(1)), F("concat", L(I(1)), L(I(1)))))],
     [(R, F("concat", F("concat", L(I(1)), L(I(1))), L(I(1))))],
     [("x", L(I(1))), (R, F("concat", V("x"), L(I(1), I(1))))],
